@@ -10,6 +10,7 @@ use vstd::std_specs::bits::*;
 
 verus! {
 
+
 global size_of usize == 8;
 
 /// bit `i` of `v`
@@ -168,6 +169,151 @@ pub proof fn lemma_shr_bits(b: u64, z: nat, j: nat)
     }
 }
 
+// ---------------------------------------------------------------------------
+// read_bits (loop-free; at most two words)
+// ---------------------------------------------------------------------------
+pub open spec fn bit_of(v: u64, i: nat) -> bool { wbit(v as nat, i) }
+
+pub open spec fn field(le: bool, v: u64, n: nat) -> Seq<bool> {
+    Seq::new(n, |i: int| if le { bit_of(v, i as nat) } else { bit_of(v, (n - 1 - i) as nat) })
+}
+
+pub open spec fn sbits<WR: WordReadSeek>(le: bool, b: &WR, p: int, n: int) -> Seq<bool> {
+    Seq::new(n as nat, |i: int| sbit(le, b, p + i))
+}
+
+/// a u64 all of whose bits at or above n are zero is below 2^n
+pub proof fn lemma_small(v: u64, n: nat)
+    requires n <= 64, forall|j: nat| n <= j < 64 ==> !#[trigger] bit_of(v, j),
+    ensures (v as nat) < pow2(n),
+    decreases 64 - n,
+{
+    lemma2_to64();
+    lemma2_to64_rest();
+    if n == 64 {
+    } else {
+        lemma_small(v, n + 1);
+        lemma_pow2_unfold(n + 1);
+        lemma_pow2_pos(n);
+        let pn = pow2(n);
+        assert(!bit_of(v, n));
+        assert((v as nat) / pn < 2) by (nonlinear_arith) requires (v as nat) < 2 * pn, pn > 0;
+        assert((v as nat) / pn == 0);
+        assert((v as nat) < pn) by (nonlinear_arith) requires (v as nat) / pn == 0, pn > 0;
+    }
+}
+
+/// bits of (w << t) >> s
+pub proof fn lemma_shl_shr(w: u64, t: nat, s: nat, j: nat)
+    requires t < 64, s < 64, j < 64,
+    ensures bit_of((w << (t as u64)) >> (s as u64), j) == (j + s < 64 && j + s >= t && bit_of(w, (j + s - t) as nat)),
+{
+    let x: u64 = (w << (t as u64)) >> (s as u64);
+    lemma_wbit_bb(x, j);
+    let tt = t as u64;
+    let ss = s as u64;
+    let jj = j as u64;
+    if j + s < 64 && j + s >= t {
+        let k = (j + s - t) as nat;
+        lemma_wbit_bb(w, k);
+        let kk = k as u64;
+        assert((((w << tt) >> ss) >> jj) & 1 == (w >> kk) & 1) by (bit_vector) requires kk + tt == jj + ss, jj + ss < 64;
+    } else if j + s >= 64 {
+        assert((((w << tt) >> ss) >> jj) & 1 == 0) by (bit_vector) requires jj + ss >= 64, jj < 64, ss < 64;
+    } else {
+        assert((((w << tt) >> ss) >> jj) & 1 == 0) by (bit_vector) requires jj + ss < tt, tt < 64;
+    }
+}
+
+pub proof fn lemma_or64(x: u64, y: u64, j: nat)
+    requires j < 64,
+    ensures bit_of(x | y, j) == (bit_of(x, j) || bit_of(y, j)),
+{
+    lemma_wbit_bb(x | y, j);
+    lemma_wbit_bb(x, j);
+    lemma_wbit_bb(y, j);
+    let jj = j as u64;
+    assert((((x | y) >> jj) & 1 == 1) == (((x >> jj) & 1 == 1) || ((y >> jj) & 1 == 1))) by (bit_vector);
+}
+
+/// from the bit characterisation of the result to the contract's form
+pub proof fn lemma_result<WR: WordReadSeek>(le: bool, b: &WR, pos: int, n: nat, r: u64)
+    requires
+        n <= 64,
+        forall|j: nat| j < 64 ==> #[trigger] bit_of(r, j) == (j < n && sbit(le, b, if le { pos + j } else { pos + n - 1 - j })),
+    ensures (r as nat) < pow2(n), field(le, r, n) =~= sbits(le, b, pos, n as int),
+{
+    lemma_small(r, n);
+    assert forall|i: int| 0 <= i < n implies #[trigger] field(le, r, n)[i] == sbits(le, b, pos, n as int)[i] by {
+        let j: nat = if le { i as nat } else { (n - 1 - i) as nat };
+        assert(bit_of(r, j) == (j < n && sbit(le, b, if le { pos + j } else { pos + n - 1 - j })));
+    }
+}
+
+/// BE, one word
+pub proof fn lemma_rb_be_single<WR: WordReadSeek>(b: &WR, c: nat, off: nat, n: nat, w: u64, r: u64)
+    requires 1 <= n, off + n <= 64, w == spec_to_be(b.word_at(c)), r == (w << (off as u64)) >> ((64 - n) as u64),
+    ensures forall|j: nat| j < 64 ==> #[trigger] bit_of(r, j) == (j < n && sbit(false, b, c * 64 + off + n - 1 - j)),
+{
+    assert forall|j: nat| j < 64 implies #[trigger] bit_of(r, j) == (j < n && sbit(false, b, c * 64 + off + n - 1 - j)) by {
+        lemma_shl_shr(w, off, (64 - n) as nat, j);
+        if j < n { lemma_sbit_word(false, b, c, off + n - 1 - j); }
+    }
+}
+
+/// BE, two words
+pub proof fn lemma_rb_be_double<WR: WordReadSeek>(b: &WR, c: nat, off: nat, n: nat, hw: u64, lw: u64, r: u64)
+    requires
+        n <= 64, off < 64, off + n > 64, hw == spec_to_be(b.word_at(c)), lw == spec_to_be(b.word_at(c + 1)),
+        r == ((hw << (off as u64)) >> ((64 - n) as u64)) | (lw >> ((128 - off - n) as u64)),
+    ensures forall|j: nat| j < 64 ==> #[trigger] bit_of(r, j) == (j < n && sbit(false, b, c * 64 + off + n - 1 - j)),
+{
+    let hi: u64 = (hw << (off as u64)) >> ((64 - n) as u64);
+    let lo: u64 = lw >> ((128 - off - n) as u64);
+    assert forall|j: nat| j < 64 implies #[trigger] bit_of(r, j) == (j < n && sbit(false, b, c * 64 + off + n - 1 - j)) by {
+        lemma_or64(hi, lo, j);
+        lemma_shl_shr(hw, off, (64 - n) as nat, j);
+        lemma_shl_shr(lw, 0, (128 - off - n) as nat, j);
+        assert(lw << 0u64 == lw) by (bit_vector);
+        if j < n {
+            let i = (off + n - 1 - j) as int;   // index from the start of word c
+            if i < 64 { lemma_sbit_word(false, b, c, i); } else { lemma_sbit_word(false, b, c + 1, i - 64); assert((c + 1) * 64 + (i - 64) == c * 64 + i); }
+        }
+    }
+}
+
+/// LE, one word
+pub proof fn lemma_rb_le_single<WR: WordReadSeek>(b: &WR, c: nat, off: nat, n: nat, w: u64, r: u64)
+    requires 1 <= n, off + n <= 64, w == spec_to_le(b.word_at(c)), r == (w << ((64 - n - off) as u64)) >> ((64 - n) as u64),
+    ensures forall|j: nat| j < 64 ==> #[trigger] bit_of(r, j) == (j < n && sbit(true, b, (c * 64 + off + j) as int)),
+{
+    assert forall|j: nat| j < 64 implies #[trigger] bit_of(r, j) == (j < n && sbit(true, b, (c * 64 + off + j) as int)) by {
+        lemma_shl_shr(w, (64 - n - off) as nat, (64 - n) as nat, j);
+        if j < n { lemma_sbit_word(true, b, c, (off + j) as int); }
+    }
+}
+
+/// LE, two words
+pub proof fn lemma_rb_le_double<WR: WordReadSeek>(b: &WR, c: nat, off: nat, n: nat, lw: u64, hw: u64, r: u64)
+    requires
+        n <= 64, off < 64, off + n > 64, lw == spec_to_le(b.word_at(c)), hw == spec_to_le(b.word_at(c + 1)),
+        r == ((hw << ((128 - off - n) as u64)) >> ((64 - n) as u64)) | (lw >> (off as u64)),
+    ensures forall|j: nat| j < 64 ==> #[trigger] bit_of(r, j) == (j < n && sbit(true, b, (c * 64 + off + j) as int)),
+{
+    let hi: u64 = (hw << ((128 - off - n) as u64)) >> ((64 - n) as u64);
+    let lo: u64 = lw >> (off as u64);
+    assert forall|j: nat| j < 64 implies #[trigger] bit_of(r, j) == (j < n && sbit(true, b, (c * 64 + off + j) as int)) by {
+        lemma_or64(hi, lo, j);
+        lemma_shl_shr(hw, (128 - off - n) as nat, (64 - n) as nat, j);
+        lemma_shl_shr(lw, 0, off, j);
+        assert(lw << 0u64 == lw) by (bit_vector);
+        if j < n {
+            let i = (off + j) as int;
+            if i < 64 { lemma_sbit_word(true, b, c, i); } else { lemma_sbit_word(true, b, c + 1, i - 64); assert((c + 1) * 64 + (i - 64) == c * 64 + i); }
+        }
+    }
+}
+
 impl<WR: WordReadSeek> BitReader<BE, WR> {
     spec fn inv(&self) -> bool {
         &&& self.data.limit() * 64 + 128 <= u64::MAX
@@ -203,6 +349,21 @@ impl<WR: WordReadSeek> BitReader<BE, WR> {
 //@LOOP 1 decreases self.data.limit() - self.data.cursor(),
 //@PROOF after=<<let zeros = word.leading_zeros() as u64;>> proof { lemma_lz_bb(word); if zeros < bits_in_word { assert forall|t: int| 0 <= t < total + zeros implies !#[trigger] rbit(false, &old(self).data, pos0, t) by { if t >= total { assert(!wbit(word as nat, (63 - (t - total)) as nat)); } } assert(wbit(word as nat, (63 - zeros) as nat)); assert(rbit(false, &old(self).data, pos0, total + zeros)); } else { assert forall|t: int| 0 <= t < total + bits_in_word implies !#[trigger] rbit(false, &old(self).data, pos0, t) by { if t >= total { assert(!wbit(word as nat, (63 - (t - total)) as nat)); } } } }
 //@PROOF after=<<word = self.data.read_word()?.to_be();>>#2 proof { assert forall|i: int| 0 <= i < 64 implies #[trigger] wbit(word as nat, (63 - i) as nat) == rbit(false, &old(self).data, pos0, total + i) by { lemma_sbit_word(false, &old(self).data, (self.data.cursor() - 1) as nat, i); } }
+//@END
+//@FN file=src/impls/bit_reader.rs item=/> BitRead<BE> for BitReader<BE, WR, RP>/ name=read_bits
+//@SIG fn read_bits_be(&mut self, n_bits: usize) -> (r: Result<u64, WR::Error>)
+//@SPEC     requires old(self).inv(), n_bits <= 64,
+//@SPEC     ensures
+//@SPEC         forall|i: nat| final(self).data.word_at(i) == old(self).data.word_at(i),
+//@SPEC         r is Ok ==> {
+//@SPEC             &&& final(self).bit_index == old(self).bit_index + n_bits
+//@SPEC             &&& (r->Ok_0 as nat) < pow2(n_bits as nat)
+//@SPEC             &&& field(false, r->Ok_0, n_bits as nat) == sbits(false, &old(self).data, old(self).bit_index as int, n_bits as int)
+//@SPEC         },
+//@PROLOGUE let ghost pos0 = self.bit_index as int; let ghost c = (self.bit_index / 64) as nat; proof { lemma_fundamental_div_mod(pos0, 64); lemma2_to64(); }
+//@REPLACE [[(word << in_word_offset) >> (64 - n_bits)]] => [[let rr = (word << in_word_offset) >> (64 - n_bits); proof { lemma_rb_be_single(&old(self).data, c, in_word_offset as nat, n_bits as nat, word, rr); } rr]]
+//@REPLACE [[((high_word << in_word_offset) >> shamt1) | (low_word >> shamt2)]] => [[let rr = ((high_word << in_word_offset) >> shamt1) | (low_word >> shamt2); proof { lemma_rb_be_double(&old(self).data, c, in_word_offset as nat, n_bits as nat, high_word, low_word, rr); } rr]]
+//@EPILOGUE proof { lemma_result(false, &old(self).data, pos0, n_bits as nat, res); }
 //@END
 }
 
@@ -241,6 +402,21 @@ impl<WR: WordReadSeek> BitReader<LE, WR> {
 //@LOOP 1 decreases self.data.limit() - self.data.cursor(),
 //@PROOF after=<<let zeros = word.trailing_zeros() as u64;>> proof { lemma_tz_bb(word); if zeros < bits_in_word { assert forall|t: int| 0 <= t < total + zeros implies !#[trigger] rbit(true, &old(self).data, pos0, t) by { if t >= total { assert(!lowbit(word, t - total)); } } assert(lowbit(word, zeros as int)); assert(rbit(true, &old(self).data, pos0, total + zeros)); } else { assert forall|t: int| 0 <= t < total + bits_in_word implies !#[trigger] rbit(true, &old(self).data, pos0, t) by { if t >= total { assert(!lowbit(word, t - total)); } } } }
 //@PROOF after=<<word = self.data.read_word()?.to_le();>>#2 proof { assert forall|i: int| 0 <= i < 64 implies #[trigger] lowbit(word, i) == rbit(true, &old(self).data, pos0, total + i) by { lemma_sbit_word(true, &old(self).data, (self.data.cursor() - 1) as nat, i); } }
+//@END
+//@FN file=src/impls/bit_reader.rs item=/> BitRead<LE> for BitReader<LE, WR, RP>/ name=read_bits
+//@SIG fn read_bits_le(&mut self, n_bits: usize) -> (r: Result<u64, WR::Error>)
+//@SPEC     requires old(self).inv(), n_bits <= 64,
+//@SPEC     ensures
+//@SPEC         forall|i: nat| final(self).data.word_at(i) == old(self).data.word_at(i),
+//@SPEC         r is Ok ==> {
+//@SPEC             &&& final(self).bit_index == old(self).bit_index + n_bits
+//@SPEC             &&& (r->Ok_0 as nat) < pow2(n_bits as nat)
+//@SPEC             &&& field(true, r->Ok_0, n_bits as nat) == sbits(true, &old(self).data, old(self).bit_index as int, n_bits as int)
+//@SPEC         },
+//@PROLOGUE let ghost pos0 = self.bit_index as int; let ghost c = (self.bit_index / 64) as nat; proof { lemma_fundamental_div_mod(pos0, 64); lemma2_to64(); }
+//@REPLACE [[(word << (shamt - in_word_offset)) >> shamt]] => [[let rr = (word << (shamt - in_word_offset)) >> shamt; proof { lemma_rb_le_single(&old(self).data, c, in_word_offset as nat, n_bits as nat, word, rr); } rr]]
+//@REPLACE [[((high_word << shamt1) >> shamt2) | (low_word >> in_word_offset)]] => [[let rr = ((high_word << shamt1) >> shamt2) | (low_word >> in_word_offset); proof { lemma_rb_le_double(&old(self).data, c, in_word_offset as nat, n_bits as nat, low_word, high_word, rr); } rr]]
+//@EPILOGUE proof { lemma_result(true, &old(self).data, pos0, n_bits as nat, res); }
 //@END
 }
 
